@@ -137,6 +137,7 @@ var VerdictDefects = map[string]func(*model.Defects){
 	"named-array-no-rules":  func(d *model.Defects) { d.NamedArrayNoLim = true },
 	"null-enum-default":     func(d *model.Defects) { d.EnumNullZero = true },
 	"map-value-anon-struct": func(d *model.Defects) { d.MapValueAnon = true },
+	"null-items-no-limits":  func(d *model.Defects) { d.NullItemsNoLim = true },
 }
 
 // Explain returns the known finding whose defect model reproduces the tool's verdict, or "".
